@@ -29,7 +29,7 @@ LEVEL_NOTE = ('Photometry values from a finite alphabet (fixed + seed-derived); 
 RULE = ("cases: (mode, grid, n, chunk of flag vectors); executions: ~12 Fitter.fit calls per vector (base, 4 junk values, 5 limit variants, flag-4 rewrite), "
         "each compared on every model; non-trivial = distinct (mode, grid, flag vector) inside the non-singular domain that contain an ignored point, a limit or a flag-1 point")
 ASSUMPTIONS = ["finite value alphabets", "singular regressions are outside the quantifier"]
-REQUIRED_CLASSES = ['limits-different-confidences', 'reflag-in-place', 'junk-under-0', 'junk-under-9', 'nonpositive-junk-under-9', 'limit-lower-violated', 'limit-upper-violated', 'limit-not-violated',
+REQUIRED_CLASSES = ['junk-with-remove-resolved', 'limits-different-confidences', 'reflag-in-place', 'junk-under-0', 'junk-under-9', 'nonpositive-junk-under-9', 'limit-lower-violated', 'limit-upper-violated', 'limit-not-violated',
                     'conf0-equals-flag0', 'conf1-violated-1e30', 'flag4-equivalence', 'mode-2d', 'mode-3d', 'singular-counted']
 TIMEOUT = {'quick': 300, 'thorough': 1800}
 
@@ -97,9 +97,13 @@ def run_case(ctx, case, rec, d):
     else:
         ap, tables = fc.grid3d(seed * 10 + 5 + case['grid'], n_models=5, n_ap=4, bands=fc.ALL_BANDS)
         spec = {'fmt': 'v1' if case['grid'] == 0 else 'v2', 'names': names, 'bands': fc.ALL_BANDS, 'apertures': ap, 'tables': tables, 'logd_step': 0.2}
+        # one model whose surface brightness rises outwards: resolved at most trial distances (matters for remove_resolved)
+        tables[4] = tables[4][:, :1] * np.array([1.0, 1e2, 1e4, 1e6])[None, :]
+        spec['tables'] = tables
         md = fc.build_package(d, 'pkg', spec)
         dmin, dmax = 0.5, 5.0
         fitter = fc.make_fitter(md, bands, 'power', (avlo, avhi), distance_range_kpc=(dmin, dmax), memmap=False)
+        fitter_rr = fc.make_fitter(md, bands, 'power', (avlo, avhi), distance_range_kpc=(dmin, dmax), memmap=False, remove_resolved=True)
         prob, grid = fc.judge_grid(fitter, dmin, dmax, 0.2)
         if prob:
             rec.violation('grid|%s' % prob.split(':')[0], {}, {'problem': prob})
@@ -164,6 +168,21 @@ def run_case(ctx, case, rec, d):
                         rec.violation('ignored|flag-%s|%s-junk' % (which, sign), dict(sub0, junk=junk, junk_err=junk_e),
                                       {'problem': 'outputs change when ignored points carry %r' % junk, 'mode': mode,
                                        'base_av': b[0], 'junk_av': r[0], 'base_chi2': b[2], 'junk_chi2': r[2]})
+            # ---- (a') the same with resolved models removed (distance-dependent mode): ignored content still must not matter
+            if ign and mode == '3d':
+                b_rr = _by_name(fitter_rr.fit(fc.make_source(fv, fl, er)), names)
+                for junk, junk_e in JUNK_PAIRS + [(7.5, 0.3)]:
+                    f2, e2 = fl.copy(), er.copy()
+                    for j in ign:
+                        f2[j] = junk
+                        e2[j] = junk_e
+                    r = _by_name(fitter_rr.fit(fc.make_source(fv, f2, e2)), names)
+                    rec.trans()
+                    rec.ev(len(names))
+                    rec.cls('junk-with-remove-resolved')
+                    if not _eq_exact(b_rr, r):
+                        rec.violation('ignored|remove-resolved|%s-junk' % ('nonpositive' if junk <= 0 else 'positive'), dict(sub0, junk=junk, junk_err=junk_e),
+                                      {'problem': 'with remove_resolved the outputs change when ignored points carry %r' % junk, 'base_chi2': b_rr[2], 'junk_chi2': r[2]})
             # ---- (b) limits
             lim = [j for j, v in enumerate(fv) if v in (2, 3)]
             if lim:
